@@ -80,8 +80,8 @@ func (f *Frame) havocCall(c *ssa.CallCommon, pos token.Pos) *Value {
 		if strings.HasPrefix(k, "L") && (strings.HasPrefix(k, "LW.") || strings.HasPrefix(k, "LR.")) {
 			continue
 		}
-		if k == "alloc" || strings.HasPrefix(k, "ITER.") {
-			continue
+		if k == "alloc" || strings.HasPrefix(k, "ITER.") || k == "CH.pending" {
+			continue // a callee returns with its own producer goroutines drained (its handoff.drained obligation), like locks
 		}
 		e.havocComp(f.st, k)
 	}
@@ -423,7 +423,7 @@ func (f *Frame) applyContract(fc *FuncContract, name string, fn *ssa.Function, s
 	case !fc.HasMod:
 		e.note(fmt.Sprintf("contract of %s has no modifies clause: everything havocked at its call sites", name))
 		for _, k := range sortedKeys(e.compSort) {
-			if strings.HasPrefix(k, "LW.") || strings.HasPrefix(k, "LR.") || k == "alloc" || strings.HasPrefix(k, "ITER.") {
+			if strings.HasPrefix(k, "LW.") || strings.HasPrefix(k, "LR.") || k == "alloc" || strings.HasPrefix(k, "ITER.") || k == "CH.pending" {
 				continue
 			}
 			e.havocComp(f.st, k)
